@@ -1,8 +1,10 @@
 package gen
 
 import (
+	"encoding/json"
 	"fmt"
 	"strconv"
+	"strings"
 
 	"github.com/moov-io/ach"
 
@@ -10,7 +12,8 @@ import (
 )
 
 // ApplyOpts stores the option set on the file (and through it on the file header), on every
-// batch and on every IAT batch.
+// batch and on every IAT batch.  This is what a caller of the public API does who builds a file
+// and calls SetValidation on the file and its batches (and what FileFromJSONWith does).
 func ApplyOpts(f *ach.File, o *ach.ValidateOpts) {
 	f.SetValidation(o)
 	for _, b := range f.Batches {
@@ -21,13 +24,692 @@ func ApplyOpts(f *ach.File, o *ach.ValidateOpts) {
 	}
 }
 
+// ApplyOptsDeep is ApplyOpts plus SetValidation on every record that has one (batch headers and
+// controls, entries, addenda; IAT headers, entries and addenda; ADV entries and controls): what
+// ach.Reader does for a file read under the option set (the Reader leaves out IAT entries, the
+// IAT return / NOC addenda and the ADV batch control; the public SetValidation covers them).
+// The flags AllowInvalidCheckDigit, CustomReturnCodes, AllowSpecialCharacters and
+// CheckTransactionCode are only ever looked up on the record itself, so a stored file can
+// depend on them only in this form.
+func ApplyOptsDeep(f *ach.File, o *ach.ValidateOpts) {
+	ApplyOpts(f, o)
+	for _, b := range f.Batches {
+		b.GetHeader().SetValidation(o)
+		b.GetControl().SetValidation(o)
+		b.GetADVControl().SetValidation(o)
+		for _, e := range b.GetEntries() {
+			e.SetValidation(o)
+			e.Addenda02.SetValidation(o)
+			for _, a := range e.Addenda05 {
+				a.SetValidation(o)
+			}
+			e.Addenda99.SetValidation(o)
+			e.Addenda99Dishonored.SetValidation(o)
+			e.Addenda99Contested.SetValidation(o)
+		}
+		for _, e := range b.GetADVEntries() {
+			e.SetValidation(o)
+			e.Addenda99.SetValidation(o)
+		}
+	}
+	for i := range f.IATBatches {
+		b := &f.IATBatches[i]
+		b.Header.SetValidation(o)
+		b.Control.SetValidation(o)
+		for _, e := range b.Entries {
+			e.SetValidation(o)
+			e.Addenda10.SetValidation(o)
+			e.Addenda11.SetValidation(o)
+			e.Addenda12.SetValidation(o)
+			e.Addenda13.SetValidation(o)
+			e.Addenda14.SetValidation(o)
+			e.Addenda15.SetValidation(o)
+			e.Addenda16.SetValidation(o)
+			for _, a := range e.Addenda17 {
+				a.SetValidation(o)
+			}
+			for _, a := range e.Addenda18 {
+				a.SetValidation(o)
+			}
+			e.Addenda99.SetValidation(o)
+		}
+	}
+}
+
+// ValidAll is File.Validate plus IATBatch.Validate of every IAT batch and Batch.Validate of the
+// batches of an ADV file: File.ValidateWith looks into neither.
+func ValidAll(f *ach.File) error {
+	if err := f.Validate(); err != nil {
+		return err
+	}
+	if f.IsADV() {
+		for _, b := range f.Batches {
+			if err := b.Validate(); err != nil {
+				return err
+			}
+		}
+	}
+	for i := range f.IATBatches {
+		if err := f.IATBatches[i].Validate(); err != nil {
+			return err
+		}
+	}
+	return nil
+}
+
+// OptVariant describes one way a file can depend on the ValidateOpts stored on it.
+type OptVariant struct {
+	Name string
+	// Flag is the ValidateOpts field that forgives the damage.
+	Flag string
+	// Level: where the library looks the flag up — "file" (File / FileHeader), "batch"
+	// (Batch / IATBatch) or "record" (the record's own option pointer: only ApplyOptsDeep or
+	// the Reader put it there).
+	Level string
+	// Stale: the damage sits in a batch control record, which Batch.Create recomputes; the
+	// file is valid and a fixed point of File.Create, but its batches are not fixed points of
+	// Batch.Create (the form a file has after ach.Reader read it under the flag).
+	Stale bool
+	// NoJSON: the option set cannot be serialised (CheckTransactionCode is a function).
+	NoJSON bool
+	// Base draws a file the variant applies to with high probability.
+	Base func(r *rng.R) *ach.File
+
+	set    func(o *ach.ValidateOpts)
+	damage func(r *rng.R, g *ach.File) bool
+}
+
+func anyFile(r *rng.R) *ach.File {
+	return File(r, Opts{Addenda: true, MaxBatches: 3, IAT: r.Chance(1, 4), Returns: r.Chance(1, 3), NOC: r.Chance(1, 4)})
+}
+
+func forwardFile(r *rng.R) *ach.File {
+	return File(r, Opts{ForwardOnly: true, Addenda: true, MaxBatches: 3, IAT: r.Chance(1, 3)})
+}
+
+func stdForwardFile(r *rng.R) *ach.File {
+	return File(r, Opts{ForwardOnly: true, Addenda: true, MinBatches: 2, MaxBatches: 4,
+		SECs: []string{ach.PPD, ach.CCD, ach.WEB, ach.CTX, ach.TEL, ach.CIE, ach.ARC}})
+}
+
+func returnsFile(r *rng.R) *ach.File {
+	secs := []string{ach.PPD, ach.CCD, ach.WEB, ach.CTX, ach.TEL, ach.ARC, ach.POS}
+	f := ach.NewFile()
+	f.SetHeader(Header(r, Opts{}))
+	odfi := ValidRouting(r)[:8]
+	n := r.Range(1, 3)
+	for i := 0; i < n; i++ {
+		kind := []string{KindReturn, KindReturn, KindDishonored, KindContested, KindForward}[r.Intn(5)]
+		if i == 0 && kind == KindForward {
+			kind = KindReturn
+		}
+		f.AddBatch(BatchOfKind(r, rng.Pick(r, secs), odfi, i+1, kind, Opts{Addenda: true}))
+	}
+	if r.Chance(1, 4) {
+		f.AddIATBatch(IATBatch(r, odfi, n+1, Opts{Returns: true}))
+	}
+	if _, err := finish(f); err != nil {
+		return nil
+	}
+	return f
+}
+
+func ctxFile(r *rng.R) *ach.File {
+	return FileOfSEC(r, ach.CTX, Opts{Addenda: true, MaxBatches: 2, Returns: r.Chance(1, 4)})
+}
+
+func advOrAny(r *rng.R) *ach.File {
+	if r.Chance(1, 4) {
+		return ADVFile(r)
+	}
+	return anyFile(r)
+}
+
+// forwardStd reports whether b is a standard (non-ADV) forward batch.
+func forwardStd(b ach.Batcher) bool {
+	return b.GetHeader().StandardEntryClassCode != ach.ADV && b.Category() == ach.CategoryForward
+}
+
+// foreignTraces gives every forward entry of the file a trace number that does not start with
+// its batch's ODFI; ascending keeps them in ascending order within each batch.
+func foreignTraces(r *rng.R, g *ach.File, ascending bool) bool {
+	n := r.Range(1000, 5000)
+	touched := false
+	next := func() int {
+		if ascending {
+			n += r.Range(1, 9)
+			return n
+		}
+		return r.Range(1, 9999999)
+	}
+	for _, b := range g.Batches {
+		if !forwardStd(b) {
+			continue
+		}
+		seen := map[int]bool{}
+		for _, e := range b.GetEntries() {
+			if e.IndividualName == "OFFSET" {
+				return false // Batch.Create removes and re-adds offset entries: a C05 matter
+			}
+			k := next()
+			for seen[k] {
+				k = next()
+			}
+			seen[k] = true
+			e.TraceNumber = fmt.Sprintf("99887766%07d", k)
+			for _, a := range e.Addenda05 {
+				a.EntryDetailSequenceNumber = k
+			}
+			if e.Addenda02 != nil {
+				e.Addenda02.TraceNumber = e.TraceNumber
+			}
+			touched = true
+		}
+	}
+	for i := range g.IATBatches {
+		seen := map[int]bool{}
+		for _, e := range g.IATBatches[i].Entries {
+			if e.Category != ach.CategoryForward {
+				continue
+			}
+			k := next()
+			for seen[k] {
+				k = next()
+			}
+			seen[k] = true
+			e.TraceNumber = fmt.Sprintf("99887766%07d", k)
+			touched = true
+		}
+	}
+	return touched
+}
+
+// special holds characters isAlphanumeric refuses: they need AllowSpecialCharacters.
+var special = []rune{0xA7, 0xA9, 0xB5, 0x0100, 0x017E, 0x20AC, 0x2022}
+
+func withSpecial(r *rng.R, s string, max int) string {
+	rs := []rune(s)
+	c := special[r.Intn(len(special))]
+	switch {
+	case len(rs) == 0:
+		return string(c)
+	case len(rs) < max && r.Bool():
+		// keep the first and the last rune non-blank
+		k := r.Intn(len(rs))
+		rs = append(rs[:k+1], rs[k:]...)
+		rs[k] = c
+	default:
+		rs[r.Intn(len(rs))] = c
+	}
+	return string(rs)
+}
+
+// hasByteSlicedName: SECs whose IndividualName is a composite the library slices by byte.
+func hasByteSlicedName(sec string) bool {
+	switch sec {
+	case ach.TRC, ach.XCK, ach.CTX, ach.ATX, ach.TRX, ach.POP, ach.SHR:
+		return true
+	}
+	return false
+}
+
+var optVariants = []*OptVariant{
+	{
+		Name: "bypass-origin", Flag: "BypassOriginValidation", Level: "file", Base: anyFile,
+		set: func(o *ach.ValidateOpts) { o.BypassOriginValidation = true },
+		damage: func(r *rng.R, g *ach.File) bool {
+			g.Header.ImmediateOrigin = "000000000"
+			return true
+		},
+	},
+	{
+		Name: "bypass-origin-traces", Flag: "BypassOriginValidation", Level: "batch", Base: forwardFile,
+		set:    func(o *ach.ValidateOpts) { o.BypassOriginValidation = true },
+		damage: func(r *rng.R, g *ach.File) bool { return foreignTraces(r, g, true) },
+	},
+	{
+		Name: "bypass-destination", Flag: "BypassDestinationValidation", Level: "file", Base: advOrAny,
+		set: func(o *ach.ValidateOpts) { o.BypassDestinationValidation = true },
+		damage: func(r *rng.R, g *ach.File) bool {
+			d := []byte(g.Header.ImmediateDestination)
+			if len(d) < 9 {
+				return false
+			}
+			last := len(d) - 1
+			d[last] = byte('0' + (int(d[last]-'0')+1+r.Intn(8))%10)
+			g.Header.ImmediateDestination = string(d)
+			return true
+		},
+	},
+	{
+		Name: "custom-trace-numbers", Flag: "CustomTraceNumbers", Level: "batch", Base: forwardFile,
+		set:    func(o *ach.ValidateOpts) { o.CustomTraceNumbers = true },
+		damage: func(r *rng.R, g *ach.File) bool { return foreignTraces(r, g, r.Bool()) },
+	},
+	{
+		Name: "allow-zero-batches", Flag: "AllowZeroBatches", Level: "file", Base: anyFile,
+		set: func(o *ach.ValidateOpts) { o.AllowZeroBatches = true },
+		damage: func(r *rng.R, g *ach.File) bool {
+			g.Batches, g.IATBatches, g.ReturnEntries, g.NotificationOfChange = nil, nil, nil, nil
+			return true
+		},
+	},
+	{
+		Name: "allow-missing-file-header", Flag: "AllowMissingFileHeader", Level: "file", Base: anyFile,
+		set: func(o *ach.ValidateOpts) { o.AllowMissingFileHeader = true },
+		damage: func(r *rng.R, g *ach.File) bool {
+			// what ach.Reader leaves in File.Header when the text has no file header record
+			g.Header = ach.NewFileHeader()
+			return true
+		},
+	},
+	{
+		Name: "unordered-batch-numbers", Flag: "AllowUnorderedBatchNumbers", Level: "file", Base: stdForwardFile,
+		set: func(o *ach.ValidateOpts) { o.AllowUnorderedBatchNumbers = true },
+		damage: func(r *rng.R, g *ach.File) bool {
+			if len(g.Batches) < 2 || g.IsADV() {
+				return false
+			}
+			i := r.Intn(len(g.Batches) - 1)
+			a, b := g.Batches[i], g.Batches[i+1]
+			na, nb := a.GetHeader().BatchNumber, b.GetHeader().BatchNumber
+			if na < 2 { // File.Create renumbers a batch whose number is <= 1
+				na, nb = na+1, nb+1
+			}
+			a.GetHeader().BatchNumber, b.GetHeader().BatchNumber = nb, na
+			a.GetControl().BatchNumber, b.GetControl().BatchNumber = nb, na
+			return true
+		},
+	},
+	{
+		Name: "company-identification-mismatch", Flag: "BypassCompanyIdentificationMatch", Level: "batch", Stale: true, Base: anyFile,
+		set: func(o *ach.ValidateOpts) { o.BypassCompanyIdentificationMatch = true },
+		damage: func(r *rng.R, g *ach.File) bool {
+			ok := false
+			for _, b := range g.Batches {
+				if c := b.GetControl(); c != nil && !isADV(b) && (!ok || r.Bool()) {
+					c.CompanyIdentification = "X" + strconv.Itoa(r.Range(10000000, 99999999))
+					ok = true
+				}
+			}
+			return ok
+		},
+	},
+	{
+		Name: "unequal-service-class", Flag: "UnequalServiceClassCode", Level: "batch", Stale: true, Base: advOrAny,
+		set: func(o *ach.ValidateOpts) { o.UnequalServiceClassCode = true },
+		damage: func(r *rng.R, g *ach.File) bool {
+			other := func(c int) int {
+				for {
+					if k := []int{ach.MixedDebitsAndCredits, ach.CreditsOnly, ach.DebitsOnly}[r.Intn(3)]; k != c {
+						return k
+					}
+				}
+			}
+			ok := false
+			for _, b := range g.Batches {
+				if ok && r.Bool() {
+					continue
+				}
+				if c := b.GetControl(); c != nil && !isADV(b) {
+					c.ServiceClassCode = other(c.ServiceClassCode)
+					ok = true
+				} else if c := b.GetADVControl(); c != nil {
+					c.ServiceClassCode = ach.MixedDebitsAndCredits
+					ok = true
+				}
+			}
+			for i := range g.IATBatches {
+				if c := g.IATBatches[i].Control; c != nil && (!ok || r.Bool()) {
+					c.ServiceClassCode = other(c.ServiceClassCode)
+					ok = true
+				}
+			}
+			return ok
+		},
+	},
+	{
+		Name: "unequal-addenda-counts-control", Flag: "UnequalAddendaCounts", Level: "batch", Stale: true, Base: advOrAny,
+		set: func(o *ach.ValidateOpts) { o.UnequalAddendaCounts = true },
+		damage: func(r *rng.R, g *ach.File) bool {
+			ok := false
+			for _, b := range g.Batches {
+				if ok && r.Bool() {
+					continue
+				}
+				if c := b.GetControl(); c != nil && !isADV(b) {
+					c.EntryAddendaCount += r.Range(1, 3)
+					ok = true
+				} else if c := b.GetADVControl(); c != nil {
+					c.EntryAddendaCount += r.Range(1, 3)
+					ok = true
+				}
+			}
+			for i := range g.IATBatches {
+				if c := g.IATBatches[i].Control; c != nil && (!ok || r.Bool()) {
+					c.EntryAddendaCount += r.Range(1, 3)
+					ok = true
+				}
+			}
+			return ok
+		},
+	},
+	{
+		Name: "unequal-addenda-counts-ctx", Flag: "UnequalAddendaCounts", Level: "batch", Base: ctxFile,
+		set: func(o *ach.ValidateOpts) { o.UnequalAddendaCounts = true },
+		damage: func(r *rng.R, g *ach.File) bool {
+			ok := false
+			for _, b := range g.Batches {
+				if b.GetHeader().StandardEntryClassCode != ach.CTX {
+					continue
+				}
+				for _, e := range b.GetEntries() {
+					if e.IndividualName == "OFFSET" {
+						return false
+					}
+					if ok && r.Bool() {
+						continue
+					}
+					n, _ := strconv.Atoi(e.CATXAddendaRecordsField())
+					ind := e.AddendaRecordIndicator
+					e.SetCATXAddendaRecords(n + r.Range(1, 5)) // also overwrites the indicator
+					e.AddendaRecordIndicator = ind
+					ok = true
+				}
+			}
+			return ok
+		},
+	},
+	{
+		Name: "invalid-amounts", Flag: "AllowInvalidAmounts", Level: "batch", Base: anyFile,
+		set: func(o *ach.ValidateOpts) { o.AllowInvalidAmounts = true },
+		damage: func(r *rng.R, g *ach.File) bool {
+			ok := false
+			for _, b := range g.Batches {
+				if isADV(b) {
+					continue
+				}
+				for _, e := range b.GetEntries() {
+					if e.IndividualName == "OFFSET" {
+						return false
+					}
+					if ok && r.Chance(2, 3) {
+						continue
+					}
+					switch {
+					case e.Addenda98 != nil || e.Addenda98Refused != nil:
+						continue // BatchCOR.Validate wants zero totals whatever the options
+					case e.Amount == 0:
+						e.Amount = r.Range(1, 99999) // a prenote / zero-dollar entry with an amount
+					case e.Category == ach.CategoryForward:
+						e.Amount = 0 // a live entry without one
+					default:
+						continue
+					}
+					ok = true
+				}
+			}
+			return ok
+		},
+	},
+	{
+		Name: "zero-entry-amount", Flag: "AllowZeroEntryAmount", Level: "batch", Base: forwardFile,
+		set: func(o *ach.ValidateOpts) { o.AllowZeroEntryAmount = true },
+		damage: func(r *rng.R, g *ach.File) bool {
+			ok := false
+			for _, b := range g.Batches {
+				if !forwardStd(b) {
+					continue
+				}
+				for _, e := range b.GetEntries() {
+					if e.IndividualName == "OFFSET" {
+						return false
+					}
+					if e.Amount != 0 && (!ok || r.Chance(1, 3)) {
+						e.Amount = 0
+						ok = true
+					}
+				}
+			}
+			return ok
+		},
+	},
+	{
+		Name: "invalid-check-digit", Flag: "AllowInvalidCheckDigit", Level: "record", Base: anyFile,
+		set: func(o *ach.ValidateOpts) { o.AllowInvalidCheckDigit = true },
+		damage: func(r *rng.R, g *ach.File) bool {
+			ok := false
+			for _, b := range g.Batches {
+				for _, e := range b.GetEntries() {
+					if ok && r.Bool() {
+						continue
+					}
+					d, _ := strconv.Atoi(e.CheckDigit)
+					e.CheckDigit = strconv.Itoa((d + 1 + r.Intn(8)) % 10)
+					ok = true
+				}
+			}
+			return ok
+		},
+	},
+	{
+		Name: "custom-return-codes", Flag: "CustomReturnCodes", Level: "record", Base: returnsFile,
+		set: func(o *ach.ValidateOpts) { o.CustomReturnCodes = true },
+		damage: func(r *rng.R, g *ach.File) bool {
+			ok := false
+			code := func() string {
+				return "R" + []string{"00", "48", "49", "54", "60", "86", "90", "97", "98", "99"}[r.Intn(10)]
+			}
+			for _, b := range g.Batches {
+				for _, e := range b.GetEntries() {
+					if ok && r.Bool() {
+						continue
+					}
+					if e.Addenda99 == nil {
+						continue
+					}
+					e.Addenda99.ReturnCode = code()
+					ok = true
+				}
+				for _, e := range b.GetADVEntries() {
+					if e.Addenda99 != nil && (!ok || r.Bool()) {
+						e.Addenda99.ReturnCode = code()
+						ok = true
+					}
+				}
+			}
+			for i := range g.IATBatches {
+				for _, e := range g.IATBatches[i].Entries {
+					if e.Addenda99 != nil && (!ok || r.Bool()) {
+						e.Addenda99.ReturnCode = code()
+						ok = true
+					}
+				}
+			}
+			return ok
+		},
+	},
+	{
+		Name: "special-characters", Flag: "AllowSpecialCharacters", Level: "record", Base: advOrAny,
+		set: func(o *ach.ValidateOpts) { o.AllowSpecialCharacters = true },
+		damage: func(r *rng.R, g *ach.File) bool {
+			// the Reader sniffs the character set from the first 1024 bytes: the file header
+			// always gets one of the characters (see the package comment on NonASCII)
+			g.Header.ImmediateOriginName = withSpecial(r, g.Header.ImmediateOriginName, 23)
+			if r.Bool() {
+				g.Header.ImmediateDestinationName = withSpecial(r, g.Header.ImmediateDestinationName, 23)
+			}
+			for _, b := range g.Batches {
+				h := b.GetHeader()
+				if r.Chance(1, 3) {
+					// the ADV batch control repeats the company name as ACHOperatorData (19 columns)
+					h.CompanyName = withSpecial(r, h.CompanyName, 16)
+				}
+				if r.Chance(1, 4) && !equalFold(h.CompanyEntryDescription, "PRENOTE", "REDEPCHECK", "AUTOENROLL") {
+					h.CompanyEntryDescription = withSpecial(r, h.CompanyEntryDescription, 10)
+				}
+				for _, e := range b.GetEntries() {
+					if e.IndividualName == "OFFSET" {
+						continue
+					}
+					if r.Chance(1, 2) && !hasByteSlicedName(h.StandardEntryClassCode) {
+						e.IndividualName = withSpecial(r, e.IndividualName, 22)
+					}
+					for _, a := range e.Addenda05 {
+						if r.Chance(1, 3) && h.StandardEntryClassCode != ach.ENR && h.StandardEntryClassCode != ach.DNE {
+							a.PaymentRelatedInformation = withSpecial(r, a.PaymentRelatedInformation, 80)
+						}
+					}
+					if e.Addenda02 != nil && r.Chance(1, 3) {
+						e.Addenda02.TerminalLocation = withSpecial(r, e.Addenda02.TerminalLocation, 27)
+					}
+				}
+				for _, e := range b.GetADVEntries() {
+					if r.Chance(1, 2) {
+						e.IndividualName = withSpecial(r, e.IndividualName, 22)
+					}
+				}
+			}
+			for i := range g.IATBatches {
+				b := &g.IATBatches[i]
+				if r.Chance(1, 3) {
+					// behind column 50 of the IAT batch header (the Reader looks for "IAT" by byte)
+					b.Header.CompanyEntryDescription = withSpecial(r, b.Header.CompanyEntryDescription, 10)
+				}
+				for _, e := range b.Entries {
+					if e.Addenda10 != nil && r.Bool() {
+						e.Addenda10.Name = withSpecial(r, e.Addenda10.Name, 35)
+					}
+					if e.Addenda11 != nil && r.Chance(1, 3) {
+						e.Addenda11.OriginatorName = withSpecial(r, e.Addenda11.OriginatorName, 35)
+					}
+					if e.Addenda15 != nil && r.Chance(1, 3) {
+						e.Addenda15.ReceiverStreetAddress = withSpecial(r, e.Addenda15.ReceiverStreetAddress, 35)
+					}
+				}
+			}
+			return true
+		},
+	},
+	{
+		Name: "check-transaction-code", Flag: "CheckTransactionCode", Level: "record", NoJSON: true, Base: stdForwardFile,
+		set: func(o *ach.ValidateOpts) { o.CheckTransactionCode = AnyTransactionCode },
+		damage: func(r *rng.R, g *ach.File) bool {
+			ok := false
+			for _, b := range g.Batches {
+				if !forwardStd(b) {
+					continue
+				}
+				for _, e := range b.GetEntries() {
+					if e.IndividualName == "OFFSET" {
+						return false
+					}
+					if e.Amount == 0 || (ok && r.Bool()) {
+						continue
+					}
+					// codes the library does not know; their direction (credit: 1-4, debit: 5-9 in
+					// the last digit) matches the entry they replace
+					last := e.TransactionCode % 10
+					if last >= 5 {
+						e.TransactionCode = []int{65, 66, 75, 76, 95, 96}[r.Intn(6)]
+					} else {
+						e.TransactionCode = []int{61, 62, 71, 72, 91, 92}[r.Intn(6)]
+					}
+					ok = true
+				}
+			}
+			return ok
+		},
+	},
+}
+
+func equalFold(s string, xs ...string) bool {
+	for _, x := range xs {
+		if len(s) == len(x) {
+			eq := true
+			for i := 0; i < len(s); i++ {
+				a, b := s[i], x[i]
+				if 'a' <= a && a <= 'z' {
+					a -= 32
+				}
+				if a != b {
+					eq = false
+					break
+				}
+			}
+			if eq {
+				return true
+			}
+		}
+	}
+	return false
+}
+
+// AnyTransactionCode is the CheckTransactionCode function of the check-transaction-code
+// variant: two digit codes are accepted.
+func AnyTransactionCode(code int) error {
+	if code < 10 || code > 99 {
+		return fmt.Errorf("transaction code %d out of range", code)
+	}
+	return nil
+}
+
+// OptVariants lists the variants NeedsOpts can produce.
+func OptVariants() []*OptVariant { return optVariants }
+
+// OptVariantByName returns the named variant (nil when unknown).
+func OptVariantByName(name string) *OptVariant {
+	for _, v := range optVariants {
+		if v.Name == name {
+			return v
+		}
+	}
+	return nil
+}
+
 // NeedsOpts turns a clone of a generated file into one that is valid ONLY under the option set
-// stored on it, and returns the clone (nil if this file does not lend itself to the chosen
-// variant).  Variants: a file header whose ImmediateDestination fails the ABA check digit under
-// BypassDestinationValidation; trace numbers not prefixed by the ODFI under CustomTraceNumbers;
-// wrong entry check digits under AllowInvalidCheckDigit.  The result is re-tabulated with Create
-// and validates; without its options it does not.
+// stored on it, and returns the clone (nil if this file does not lend itself to the variant
+// drawn).  One variant per relaxation flag of ValidateOpts that can matter to a stored file
+// (see optVariants; PreserveSpaces only changes what Parse keeps and AllowMissingFileControl is
+// looked at by the Reader only — TextNeedsOpts covers the reader side).  The variant is drawn
+// among those that did damage to this file; the result validates (ValidAll), is a fixed point
+// of File.Create, and without its options it does not validate.
 func NeedsOpts(r *rng.R, f *ach.File) (out *ach.File, variant string) {
+	// up to three draws: many variants need a particular kind of content
+	for i := 0; i < 3; i++ {
+		v := optVariants[r.Intn(len(optVariants))]
+		if g := NeedsOptsVariant(r, f, v); g != nil {
+			return g, v.Name
+		}
+		variant = v.Name
+	}
+	return nil, variant
+}
+
+// NeedsOptsOf generates a base file suited to the variant and damages it.
+func NeedsOptsOf(r *rng.R, v *OptVariant) *ach.File {
+	for i := 0; i < 4; i++ {
+		var f *ach.File
+		func() {
+			defer func() {
+				if recover() != nil {
+					f = nil
+				}
+			}()
+			f = v.Base(r)
+		}()
+		if f == nil {
+			continue
+		}
+		if g := NeedsOptsVariant(r, f, v); g != nil {
+			return g
+		}
+	}
+	return nil
+}
+
+// NeedsOptsVariant applies one variant to a clone of f (nil: not applicable / not kept).
+func NeedsOptsVariant(r *rng.R, f *ach.File, v *OptVariant) (out *ach.File) {
 	defer func() {
 		if recover() != nil {
 			out = nil
@@ -35,78 +717,152 @@ func NeedsOpts(r *rng.R, f *ach.File) (out *ach.File, variant string) {
 	}()
 	g := Clone(f)
 	o := &ach.ValidateOpts{}
-	v := r.Intn(3)
-	switch v {
-	case 0:
-		variant = "bypass-destination"
-		o.BypassDestinationValidation = true
-		d := []byte(g.Header.ImmediateDestination)
-		if len(d) < 9 {
-			return nil, variant
-		}
-		last := len(d) - 1
-		d[last] = byte('0' + (int(d[last]-'0')+1+r.Intn(8))%10)
-		g.Header.ImmediateDestination = string(d)
-	case 1:
-		variant = "custom-trace-numbers"
-		o.CustomTraceNumbers = true
-		n := r.Range(1000, 5000)
-		for _, b := range g.Batches {
-			if b.GetHeader().StandardEntryClassCode == ach.ADV || b.Category() != ach.CategoryForward {
-				return nil, variant
-			}
-			for _, e := range b.GetEntries() {
-				n += r.Range(1, 9)
-				e.TraceNumber = fmt.Sprintf("99887766%07d", n)
-				for _, a := range e.Addenda05 {
-					a.EntryDetailSequenceNumber = n % 10000000
-				}
-				if e.Addenda02 != nil {
-					e.Addenda02.TraceNumber = e.TraceNumber
-				}
-			}
-		}
-		if len(g.IATBatches) > 0 {
-			return nil, variant
-		}
-	case 2:
-		variant = "invalid-check-digit"
-		o.AllowInvalidCheckDigit = true
-		for _, b := range g.Batches {
-			if b.GetHeader().StandardEntryClassCode == ach.ADV || b.Category() != ach.CategoryForward {
-				return nil, variant
-			}
-			for _, e := range b.GetEntries() {
-				d, _ := strconv.Atoi(e.CheckDigit)
-				e.CheckDigit = strconv.Itoa((d + 1 + r.Intn(8)) % 10)
-			}
-		}
-		if len(g.IATBatches) > 0 {
-			return nil, variant
-		}
+	v.set(o)
+	if !v.damage(r, g) {
+		reject(v, "not applicable")
+		return nil
 	}
-	ApplyOpts(g, o)
-	for _, b := range g.Batches {
-		if err := b.Create(); err != nil {
-			return nil, variant
-		}
+	deep := v.Level == "record" || r.Chance(1, 3)
+	if deep {
+		ApplyOptsDeep(g, o)
+	} else {
+		ApplyOpts(g, o)
 	}
-	for i := range g.IATBatches {
-		if err := g.IATBatches[i].Create(); err != nil {
-			return nil, variant
-		}
+	if err := retabulate(g, v.Stale); err != nil {
+		reject(v, "create: "+err.Error())
+		return nil
 	}
-	if err := g.Create(); err != nil {
-		return nil, variant
-	}
-	if err := g.Validate(); err != nil {
-		return nil, variant
+	if err := ValidAll(g); err != nil {
+		reject(v, "validate: "+err.Error())
+		return nil
 	}
 	// only keep it if the options are really needed
 	h := Clone(g)
-	ApplyOpts(h, nil)
-	if h.Create() == nil && h.Validate() == nil {
-		return nil, variant
+	ApplyOptsDeep(h, nil)
+	if h.Create() == nil && ValidAll(h) == nil {
+		reject(v, "valid without the options")
+		return nil
 	}
-	return g, variant
+	// and only if it is stable: a second tabulation changes nothing that is written
+	if !v.Stale && !fixedPoint(g) {
+		reject(v, "not a fixed point of Create")
+		return nil
+	}
+	return g
+}
+
+// retabulate runs Batch.Create on every batch (not for stale variants: their damage lives in
+// the batch control) and File.Create.
+func retabulate(g *ach.File, stale bool) error {
+	if !stale {
+		for _, b := range g.Batches {
+			if err := b.Create(); err != nil {
+				return err
+			}
+		}
+		for i := range g.IATBatches {
+			if err := g.IATBatches[i].Create(); err != nil {
+				return err
+			}
+		}
+	}
+	return g.Create()
+}
+
+var rejects = map[string]map[string]int{}
+
+// reject counts why a variant was not kept (self test only; not synchronised).
+func reject(v *OptVariant, why string) {
+	why = strings.Map(func(c rune) rune {
+		if c >= '0' && c <= '9' {
+			return -1
+		}
+		return c
+	}, why)
+	if len(why) > 110 {
+		why = why[:110]
+	}
+	if rejects[v.Name] == nil {
+		rejects[v.Name] = map[string]int{}
+	}
+	rejects[v.Name][why]++
+}
+
+// Rejects reports, per variant, why NeedsOptsVariant returned nil so far.
+func Rejects() map[string]map[string]int { return rejects }
+
+// fixedPoint: Batch.Create of every batch and File.Create leave the rendered records unchanged.
+func fixedPoint(g *ach.File) bool {
+	before := renderAll(g)
+	h := Clone(g)
+	if retabulate(h, false) != nil {
+		return false
+	}
+	return renderAll(h) == before
+}
+
+func renderAll(f *ach.File) string {
+	bs, err := json.Marshal(f)
+	if err != nil {
+		return "error: " + err.Error()
+	}
+	return string(bs)
+}
+
+func isADV(b ach.Batcher) bool { return b.GetHeader().StandardEntryClassCode == ach.ADV }
+
+// TextVariants: the reader-side relaxations.  AllowMissingFileHeader / AllowMissingFileControl
+// are looked at by ach.Reader (a text without the file header / file control record is accepted);
+// no stored, tabulated file depends on AllowMissingFileControl.
+var TextVariants = []string{"text:missing-file-header-record", "text:missing-file-control-record"}
+
+// TextNeedsOpts renders a generated valid file and removes the file header record or the file
+// control record (the 9-padding is recomputed), so that ach.Reader accepts the text ONLY under
+// the returned options (checked: error without them, none with them).  ok=false: not produced.
+func TextNeedsOpts(r *rng.R, f *ach.File, variant string) (text string, o *ach.ValidateOpts, ok bool) {
+	defer func() {
+		if recover() != nil {
+			ok = false
+		}
+	}()
+	full, err := Text(f, false)
+	if err != nil {
+		return "", nil, false
+	}
+	lines := strings.Split(strings.TrimSuffix(full, "\n"), "\n")
+	var kept []string
+	for _, l := range lines {
+		if strings.HasPrefix(l, "9999999999") && strings.Trim(l, "9") == "" {
+			continue // padding
+		}
+		kept = append(kept, l)
+	}
+	if len(kept) < 3 {
+		return "", nil, false
+	}
+	o = &ach.ValidateOpts{}
+	switch variant {
+	case "text:missing-file-header-record":
+		o.AllowMissingFileHeader = true
+		kept = kept[1:]
+	case "text:missing-file-control-record":
+		o.AllowMissingFileControl = true
+		kept = kept[:len(kept)-1]
+	default:
+		return "", nil, false
+	}
+	for len(kept)%10 != 0 {
+		kept = append(kept, strings.Repeat("9", 94))
+	}
+	text = strings.Join(kept, "\n") + "\n"
+	if _, err := ach.NewReader(strings.NewReader(text)).Read(); err == nil {
+		return "", nil, false
+	}
+	rd := ach.NewReader(strings.NewReader(text))
+	rd.SetValidation(o)
+	if _, err := rd.Read(); err != nil {
+		reject(&OptVariant{Name: variant}, "read: "+err.Error())
+		return "", nil, false
+	}
+	return text, o, true
 }
